@@ -13,6 +13,7 @@ import (
 	"context"
 	"crypto/sha256"
 	"fmt"
+	"path"
 	"sort"
 	"strings"
 
@@ -490,6 +491,19 @@ func opDel(r *hx.Run, fp, wh string) {
 	}
 	r.Op("del "+hx.Hex([]byte(fp))+" "+hx.Hex([]byte(wh)), out, out == "true")
 	r.Count("del:" + out)
+	// the statement itself: on clean relative paths fileIsDeleted is the OCI cover relation
+	// (`.wh.x` hides x and everything below it, `.wh..wh..opq` hides everything below its
+	// directory); a marker at the root of the layer is the one documented exception
+	cleanRel := func(p string) bool {
+		return p != "" && p != "." && path.Clean(p) == p && !strings.HasPrefix(p, "/") && !strings.HasPrefix(p, "..")
+	}
+	if cleanRel(fp) && cleanRel(wh) && isWhiteoutPath(wh) && wh != opqName && path.Base(wh) != whPrefix {
+		want := fmt.Sprint(covers(wh, fp))
+		r.Count("del:oci-spec-checked")
+		if out != want {
+			r.Fail("", fmt.Sprintf("fileIsDeleted(%q, %q) = %s, but by the OCI whiteout rules the answer is %s", fp, wh, out, want))
+		}
+	}
 }
 
 // ---- generators ----
@@ -696,6 +710,43 @@ func runPure(r *hx.Run, cfg hx.Config, rnd *hx.Rand) {
 			}
 		}
 		return sb.String()
+	}
+	// clean relative paths (what tarfs hands to the scanners): names that are string prefixes of
+	// each other, whiteouts aimed at the path, its ancestors, its siblings, opaque markers
+	comps := []string{"a", "ab", "b", "bc", "c", "lib", "lib64", "x.y", "node_modules", "ms", "ms-utils"}
+	cleanPath := func(n int) []string {
+		ps := make([]string, n)
+		for i := range ps {
+			ps[i] = comps[rnd.Intn(len(comps))]
+		}
+		return ps
+	}
+	for i := 0; i < cfg.N(3000, 100000); i++ {
+		fpc := cleanPath(1 + rnd.Intn(4))
+		fp := strings.Join(fpc, "/")
+		var wh string
+		k := rnd.Intn(len(fpc))
+		pre := strings.Join(fpc[:k], "/")
+		if pre != "" {
+			pre += "/"
+		}
+		switch rnd.Intn(5) {
+		case 0:
+			wh = pre + ".wh." + fpc[k]
+		case 1: // a sibling whose name is related by string prefix
+			wh = pre + ".wh." + comps[rnd.Intn(len(comps))]
+		case 2:
+			if pre == "" {
+				wh = fpc[0] + "/" + opqName
+			} else {
+				wh = pre + opqName
+			}
+		case 3:
+			wh = strings.Join(cleanPath(1+rnd.Intn(3)), "/") + "/.wh." + comps[rnd.Intn(len(comps))]
+		default:
+			wh = strings.Join(cleanPath(1+rnd.Intn(3)), "/") + "/" + opqName
+		}
+		opDel(r, fp, wh)
 	}
 	for i := 0; i < cfg.N(3000, 100000); i++ {
 		fp, wh := randPath(), randPath()
